@@ -241,6 +241,26 @@ def add_c03_objects(ctx, defs):
                     bounds='Logon message ...|98=0|108=3|384=n|372=D|[385=S|]<remainder>10=000| with count n in 1..2, one group element of one or two fields and either no remainder or 4 arbitrary bytes that are not a token (first byte neither a digit nor the equals sign; or 1..3 digits followed by a byte that is neither); element pool of 3',
                     desc='decode_group terminates: it creates no more elements than the input can hold; the message is accepted or a fix8 exception is raised', **common))
 
+def add_c03_databound(ctx, defs):
+    """C03, Length/data branch at the capacity of the decoder's value buffer: a second build of the decoder world with
+    FIX8_MAX_FLD_LENGTH scaled to 8 (so that the boundary lengths 7 and 8 fit the token table), tokenizer cut, no groups.
+    n = capacity-1 must decode byte-identical, n = capacity must be refused; CBMC's bounds checks watch val[val_sz] = 0."""
+    world(ctx)
+    ext = ['-DFIX8_MAX_FLD_LENGTH=8']
+    shim = ctx.build_ir('codec_world.cpp', 'cut', extra=ext); msg = ctx.build_ir(REPO + '/runtime/message.cpp', 'cut', extra=ext)
+    ll = ctx.link_ir([shim, msg], 'codecworld_f8')
+    ctx.translate(ll, WORLD_ROOTS, 'world_tkng_f8.c', stubs={SYMS['dgroup']: 'st_no_group'}, stubfiles=['codec_world.stubs', 'codec_tok.stubs', 'common.stubs'],
+                  models=['cxx.c', 'stubs.c', 'codec.c'], provided=['vf_rec_create', 'vf_next_element'])
+    for n, rej in ((3, 0), (7, 0), (8, 1)):
+        for place, nm in ((1, 'body_95_96'),) + (((0, 'header_90_91'),) if ctx.tier == 'thorough' else ()):
+            ctx.add(Harness('C03_datalen_%s_n%d' % (nm, n), VERIF + '/harness/C06_data.c',
+                            defines=[d for d in defs if d != 'KF_SIG_PAIR'] + WORLD_DEFS + ['WORLD_FILE="world_tkng_f8.c"', 'PLACE=%d' % place, 'NDATA=8', 'NFIX=%d' % n, 'TKV=8', 'VMAXB=9', 'CONCRETE_DATA', 'VF_MAXCOPY=%d' % FLD] + (['EXPECT_REJECT'] if rej else []),
+                            unwind=14, unwindset=us_decode(14), flags=['-I', VERIF + '/shims', '--max-field-sensitivity-array-size', '128'], object_bits=14, timeout=900,
+                            functions=FUN_DECODE + ['FIX8::MessageBase::extract_element_fixed_width', 'MessageBase::decode: ft_Length branch incl. its capacity test'],
+                            stubs=STUBS_DECODE + [STUB_TOK + ' (never applied to the data token: asserted)', STUB_NOGRP],
+                            bounds='Logon message with the Length/data pair in the %s, FIX8_MAX_FLD_LENGTH scaled to 8, data length n = %d (%s), data bytes fixed letters' % (nm.split('_')[0], n, 'capacity: must be refused' if rej else 'capacity - 1: must decode'),
+                            desc='boundary of the value buffer: no write past val[], refusal at the capacity'))
+
 # ------------------------------------------------------------------ the token-level decoder world
 WORLD_ROOTS = ['vf_ctx_setup', 'vf_msg_entry_fn', 'vf_ctx_mk_hdr', 'vf_ctx_mk_trl', 'vf_tab_hdr', 'vf_tab_body', 'vf_tab_grp', 'vf_tab_trl', 'vf_mk_header', 'vf_mk_trailer',
                'vf_mk_body', 'vf_mk_element', 'vf_mk_group', 'vf_factory', 'vf_extract_header', 'vf_extract_trailer', 'vf_extract_element_s', 'vf_mb_decode',
